@@ -103,6 +103,18 @@ func JWSHeaders(c Content, alg string) []Member {
 	return ms
 }
 
+// RawNamePrefix marks a member name that is already JSON text (a string literal in some other spelling, e.g. with \u escapes).
+const RawNamePrefix = "\x00raw-json-name:"
+
+// EscapedJSONString writes s as a JSON string literal whose first character is spelled as a \u escape (the same string to any JSON
+// reader, other bytes).
+func EscapedJSONString(s string) string {
+	if s == "" || s[0] >= 0x80 {
+		return jstr(s)
+	}
+	return fmt.Sprintf("\"\\u%04x%s", s[0], jstr(s[1:])[1:])
+}
+
 // ObjectJSON assembles members into a JSON object in the given order.
 func ObjectJSON(ms []Member) string {
 	var b strings.Builder
@@ -111,7 +123,11 @@ func ObjectJSON(ms []Member) string {
 		if i > 0 {
 			b.WriteByte(',')
 		}
-		b.WriteString(jstr(m.Name))
+		if strings.HasPrefix(m.Name, RawNamePrefix) {
+			b.WriteString(m.Name[len(RawNamePrefix):])
+		} else {
+			b.WriteString(jstr(m.Name))
+		}
 		b.WriteByte(':')
 		b.WriteString(m.Raw)
 	}
